@@ -185,4 +185,13 @@ pub mod verif {
         STOP_AT_POLL.store(stop_at_poll, Ordering::Relaxed);
         EVERY_NODE.store(every_node, Ordering::Relaxed);
     }
+
+    /// Scheduling hook: sleeps for the number of milliseconds in the environment variable `var`
+    /// (unset or unparsable = no delay). Placed at the steps of the search thread so that a test
+    /// can hold the thread at a chosen step while commands arrive.
+    pub fn delay(var: &str) {
+        if let Some(ms) = std::env::var(var).ok().and_then(|v| v.parse::<u64>().ok()) {
+            std::thread::sleep(std::time::Duration::from_millis(ms));
+        }
+    }
 }
